@@ -1,6 +1,6 @@
 (* C07  Expression trees follow the C/C++ operator grammar: property statements only. *)
 From Coq Require Import List NArith Bool.
-From CV Require Import Ast.Defs Ast.Main1 Ast.Main2 Ast.NoDecl.
+From CV Require Import Ast.Defs Ast.Main1 Ast.Main2 Ast.NoDecl Ast.Main3.
 Import ListNotations.
 Local Open Scope N_scope.
 
@@ -46,6 +46,33 @@ Example C07_stage2_premises :
                     (EAsg 0 AOr (EId 0 0) (ENum 0 2))) in
   frag2 e = true /\ wf e = true /\
   parse false (render e) = Some (tree_of e).
+Proof. vm_compute. repeat split; reflexivity. Qed.
+
+(* PARTIAL (stage 3).  Fragment [frag3] = stage 2 + the prefix operators + - ! ~ * & ++ -- , i.e. expressions
+   built from identifiers, numbers, parentheses, the 11 binary levels, assignments, comma and prefix unary
+   operators, with the unary/binary disambiguation of isPrefixUnary (previous token) and the look-aheads of the
+   * & && levels (isQualifier, "* [*,)]", "& &").  Premises: [wf e] (prefix ++/-- is not applied directly to
+   a prefix + - ! ~ & expression - never an lvalue; there isPrefixUnary would not see a prefix operator) and
+   [labels_ok e] (the token labels of a prefix operator and of its operand's root are ordered as in the token
+   list - compileUnaryOp's `precedes` test; the position labelling [canon] satisfies it).
+   Missing for the full language: ?: , postfix ++ --, calls, subscripts, member access, casts. *)
+Theorem C07_parse_render_stage3_partial :
+  forall (cpp : bool) (e : expr),
+    frag3 e = true -> wf e = true -> labels_ok e = true ->
+    parse cpp (render e) = Some (tree_of e).
+Proof. exact parse_render_stage3. Qed.
+Print Assumptions C07_parse_render_stage3_partial.
+
+(* the premises are inhabited:  - * p + ~ ++ * q * & a , ! b -= - - c & & d && & a *)
+Example C07_stage3_premises :
+  let e := canon (EComma 0
+                    (EBin 0 BAdd (EPre 0 PMinus (EPre 0 PDeref (EId 0 4)))
+                       (EBin 0 BMul (EPre 0 PTilde (EPre 0 PInc (EPre 0 PDeref (EId 0 5)))) (EPre 0 PAddr (EId 0 0))))
+                    (EAsg 0 ASub (EPre 0 PNot (EId 0 1))
+                       (EBin 0 BLAnd (EBin 0 BAnd (EPre 0 PMinus (EPre 0 PMinus (EId 0 2))) (EPre 0 PAddr (EId 0 3)))
+                          (EPre 0 PAddr (EId 0 0))))) in
+  frag3 e = true /\ wf e = true /\ labels_ok e = true /\
+  parse false (render e) = Some (tree_of e) /\ parse true (render e) = Some (tree_of e).
 Proof. vm_compute. repeat split; reflexivity. Qed.
 
 (* r = d + ( a * f ( b , c ) )   with every identifier a declared variable (f: a function pointer).
